@@ -384,7 +384,12 @@ func engEngineEvents() vsched.Instance {
 type treeParams struct {
 	Depth, Fan int
 	Stop       int // how the root is stopped: 1 Poison, 2 Stop
-	Extra      int // concurrent disturbance: 0 none, 1 a leaf stops itself (Poison own pid from a message), 2 a leaf crashes on a message, 3 third party poisons a leaf, 4 query Children() racing
+	// Extra: what else happens.
+	//   racing with the root's shutdown: 0 nothing, 1 a leaf stops itself (poisons its own pid from a message),
+	//   2 a leaf panics once on a message, 3 a third party poisons a leaf, 5 a leaf panics on every delivery of a message (exceeds max restarts)
+	//   before the root's shutdown (quiescence in between): 4 Children() queried while a leaf stops itself, then again afterwards,
+	//   6 a leaf panics once and is restarted, 7 the root panics once and is restarted
+	Extra int
 }
 
 func (p treeParams) String() string {
@@ -406,9 +411,15 @@ func engTree(variants []treeParams) vsched.Instance {
 	var obs []childrenObs
 	var rootPID *actor.PID
 	var leaf *actor.PID
-	regAtStopped := []string{} // descendants still registered inside an ancestor's Stopped handler
+	type regObs struct {
+		inc  int
+		what string
+	}
+	regAtStopped := map[string][]regObs{} // per actor: descendants still registered inside its Stopped handler, by incarnation
 	var ctxDoneLogIdx = -1
 	pids := map[string]*actor.PID{}
+	crashed := map[string]bool{}
+	stoppedSelf := ""
 	body := func() {
 		p = variants[vsched.Choose(len(variants))]
 		k = NewKit()
@@ -432,7 +443,7 @@ func engTree(variants []treeParams) vsched.Instance {
 					// all descendants must be unregistered by now
 					for dn, dp := range pids {
 						if dn != name && strings.HasPrefix(dn, name+".") && c.GetPID(dp.ID) != nil {
-							regAtStopped = append(regAtStopped, name+">"+dn)
+							regAtStopped[name] = append(regAtStopped[name], regObs{inc, name + ">" + dn})
 						}
 					}
 				case string:
@@ -440,7 +451,12 @@ func engTree(variants []treeParams) vsched.Instance {
 					case "selfstop":
 						c.Engine().Poison(c.PID())
 					case "crash":
-						panic("leaf crash")
+						panic("crash")
+					case "crash1":
+						if !crashed[name] {
+							crashed[name] = true
+							panic("crash once")
+						}
 					case "query":
 						o := childrenObs{who: name}
 						for _, ch := range c.Children() {
@@ -464,15 +480,33 @@ func engTree(variants []treeParams) vsched.Instance {
 			ln += ".0"
 		}
 		leaf = pids[ln]
+		ln0 := ln
 		switch p.Extra {
 		case 1:
 			vsched.Go("disturb", func() { k.E.Send(leaf, "selfstop") })
 		case 2:
-			vsched.Go("disturb", func() { k.E.Send(leaf, "crash") })
+			vsched.Go("disturb", func() { k.E.Send(leaf, "crash1") })
 		case 3:
 			vsched.Go("disturb", func() { k.E.Poison(leaf) })
+		case 5:
+			vsched.Go("disturb", func() { k.E.Send(leaf, "crash") })
 		case 4:
-			vsched.Go("disturb", func() { k.E.Send(rootPID, "query"); k.E.Send(leaf, "selfstop"); k.E.Send(rootPID, "query") })
+			// Children() racing with a child that stops on its own; the root is stopped afterwards
+			parent := rootPID
+			if p.Depth == 2 {
+				parent = pids["r.0"]
+			}
+			vsched.Go("disturb", func() { k.E.Send(parent, "query"); k.E.Send(leaf, "selfstop"); k.E.Send(parent, "query") })
+			vsched.Quiesce()
+			stoppedSelf = ln0
+			k.E.Send(parent, "query")
+			vsched.Quiesce()
+		case 6:
+			k.E.Send(leaf, "crash1")
+			vsched.Quiesce()
+		case 7:
+			k.E.Send(rootPID, "crash1")
+			vsched.Quiesce()
 		}
 		vsched.Go("stopper", func() {
 			var done <-chan struct{}
@@ -506,7 +540,9 @@ func engTree(variants []treeParams) vsched.Instance {
 		stoppedAt := map[string]int{}
 		for i, e := range k.Log {
 			if e.Kind == "recv" && e.Msg == "Stopped" {
-				if _, ok := stoppedAt[e.Actor]; !ok {
+				// the Stopped of the final incarnation: a crashed incarnation is also told Stopped, but
+				// the actor itself lives on (restart) and keeps its children
+				if e.Inc == k.Incs(e.Actor) {
 					stoppedAt[e.Actor] = i
 				}
 			}
@@ -526,8 +562,17 @@ func engTree(variants []treeParams) vsched.Instance {
 				vs = append(vs, V("tree/wrong-parent", "%s: Parent() of %s is %q, want %q", p, child, parentSeen[child], want))
 			}
 		}
-		if len(regAtStopped) > 0 {
-			vs = append(vs, V("tree/descendant-registered-while-ancestor-handles-stopped", "%s: %v", p, regAtStopped))
+		var regBad []string
+		for name, obs := range regAtStopped {
+			for _, o := range obs {
+				if o.inc == k.Incs(name) {
+					regBad = append(regBad, o.what)
+				}
+			}
+		}
+		sort.Strings(regBad)
+		if len(regBad) > 0 {
+			vs = append(vs, V("tree/descendant-registered-while-ancestor-handles-stopped", "%s: %v", p, regBad))
 		}
 		if ctxDoneLogIdx >= 0 {
 			for name, at := range stoppedAt {
@@ -541,6 +586,23 @@ func engTree(variants []treeParams) vsched.Instance {
 			_ = parts
 			if k.E.Registry.GetPID("n", strings.TrimPrefix(pd.ID, "n/")) != nil {
 				vs = append(vs, V("tree/descendant-still-registered", "%s: %s still registered at quiescence", p, name))
+			}
+		}
+		if p.Extra == 4 && len(obs) > 0 {
+			last := obs[len(obs)-1]
+			wantN := 0
+			for cn, par := range parentOf {
+				if par == last.who && cn != stoppedSelf {
+					wantN++
+				}
+			}
+			for _, n := range last.names {
+				if pids[stoppedSelf] != nil && n == pids[stoppedSelf].ID {
+					vs = append(vs, V("children/stopped-child-still-listed", "%s: Children() of %s still lists %s after it stopped on its own", p, last.who, n))
+				}
+			}
+			if len(last.names) != wantN {
+				vs = append(vs, V("children/live-child-missing", "%s: Children() of %s lists %v, want %d live children", p, last.who, last.names, wantN))
 			}
 		}
 		for _, o := range obs {
